@@ -40,6 +40,7 @@ type c6Chain struct {
 	optional bool
 	failOn   int // sink index that returns an error for this event, -1 none
 	shortOn  int // sink index that accepts fewer bytes (nil error) for this event, -1 none
+	panicOn  int // sink index whose Write panics for this event (the logging goroutine recovers), -1 none
 	derive   int // 0 none; the task derives a child logger first: 1 With().Str, 2 Hook, 3 Level(Trace), 4 Output(same destination)
 	sampler  int // index of the shared BasicSampler its logger goes through, -1 none
 	gatePass bool
@@ -149,6 +150,12 @@ func (s *c6Sink) write(l zerolog.Level, hasLevel bool, p []byte) (int, error) {
 		zsim.Fail("C06.mutated", "the buffer of event %s changed while sink %d was inside Write (first difference at byte %d): now %s", c.id, s.idx, firstDiff(p, entry), clip(p, 120))
 	}
 	s.inFlight--
+	if c.panicOn == s.idx {
+		// the destination panics; the caller recovers (as net/http does for a handler) and the
+		// process goes on: everybody else must still be able to log
+		zsim.Fault("sink_panics")
+		panic("destination failure for " + c.id)
+	}
 	if c.failOn == s.idx {
 		zsim.Fault("sink_error")
 		return 0, errors.New("injected write error")
@@ -319,6 +326,16 @@ func (r *c6Run) finalize(c *c6Chain, e *zerolog.Event, seq int) {
 }
 
 func (r *c6Run) runChain(c *c6Chain, seq int) {
+	if c.panicOn >= 0 && r.solo == nil {
+		defer func() {
+			if p := recover(); p != nil {
+				if zsim.Dying() {
+					panic(p)
+				}
+				delete(r.cur, zsim.CurID())
+			}
+		}()
+	}
 	if c.entry != 0 {
 		r.runEntry(c, seq)
 		return
@@ -509,6 +526,7 @@ func (c06World) Run(prop string, ch *zsim.Choices, trace bool) *RunResult {
 		r.nTasks = 2 + ch.Weighted(4, 3, 2, 1, 1)
 		r.flips = ch.Chance(1, 5)
 		withErrors := ch.Chance(1, 6)
+		withPanics := !withErrors && ch.Chance(1, 8)
 		nsinks := 1
 		if r.dest == 2 || r.dest == 4 || r.dest == 12 {
 			nsinks = 2
@@ -517,7 +535,7 @@ func (c06World) Run(prop string, ch *zsim.Choices, trace bool) *RunResult {
 			n := 1 + ch.Intn(6)
 			var cs []*c6Chain
 			for k := 0; k < n; k++ {
-				c := &c6Chain{task: t, k: k, id: fmt.Sprintf("t%d.%d", t, k), failOn: -1, shortOn: -1, sampler: -1}
+				c := &c6Chain{task: t, k: k, id: fmt.Sprintf("t%d.%d", t, k), failOn: -1, shortOn: -1, panicOn: -1, sampler: -1}
 				c.logger = ch.Intn(len(r.loggers) + 1)
 				if c.logger < len(r.loggers) {
 					c.sampler = r.samplerOf[c.logger]
@@ -527,6 +545,10 @@ func (c06World) Run(prop string, ch *zsim.Choices, trace bool) *RunResult {
 				}
 				if !withErrors && ch.Chance(1, 8) {
 					c.shortOn = ch.Intn(nsinks)
+				}
+				if withPanics && ch.Chance(1, 5) {
+					c.panicOn = ch.Intn(nsinks)
+					c.optional = true // a second destination behind the panicking one may not see it
 				}
 				c.level = c6Levels[ch.Intn(len(c6Levels))]
 				c.ops = genOps(ch, ch.Intn(7), 0, "f")
@@ -574,7 +596,7 @@ func (c06World) Run(prop string, ch *zsim.Choices, trace bool) *RunResult {
 			tasks = append(tasks, zsim.Spawn(fmt.Sprintf("log%d", t), func() {
 				seq := 0
 				for i := 0; i < len(cs); i++ {
-					if pairs && i+1 < len(cs) && cs[i].entry == 0 && cs[i+1].entry == 0 {
+					if pairs && i+1 < len(cs) && cs[i].entry == 0 && cs[i+1].entry == 0 && cs[i].panicOn < 0 && cs[i+1].panicOn < 0 {
 						// two events open at once, finalized in either order
 						a, b := cs[i], cs[i+1]
 						ea := r.start(a).Str("id", a.id)
